@@ -84,6 +84,12 @@ def check_roundtrip(case, ctx):
                     leak = bool(got_raw) and ref.k.to_bytes(32, "big") in got_raw
                     raise Violation("C07/xpub/%s" % ("private-scalar-leaked" if leak else "differs"),
                                     "%s: extended_public_key(%#x) = %r, expected %s" % (what, vpub, xp, want_pub))
+        # a stream whose current position is not 0 (header already consumed, nodes back to back)
+        stream = BytesIO(b"\xaa" * 5 + raw + raw[:40])
+        stream.read(5)
+        st_, n = call(cls.parse, stream, testnet)
+        if st_ == "exc" or not (n == nodes[1][1]) or n.parsed_version != v:
+            raise Violation("C07/parse/stream-offset", "%s: parsing from a stream positioned at offset 5 gave %r" % (tag, n))
         for (fa, a), (fb, b) in ((nodes[0], nodes[1]), (nodes[1], nodes[2]), (nodes[0], nodes[2])):
             if not (a == b):
                 raise Violation("C07/parse/forms-unequal", "%s: node from %s != node from %s" % (tag, fa, fb))
